@@ -206,18 +206,18 @@ fn with_ns<R>(f: impl FnOnce(&mut Namespace, &mut u64) -> R) -> R {
 
 /// Select the namespace used by all subsequent simnet calls on this thread.
 pub fn enter(ns: u64) {
-    FABRIC.with(|fab| fab.borrow_mut().current = ns);
+    let _ = FABRIC.try_with(|fab| fab.borrow_mut().current = ns);
 }
 
 pub fn current() -> u64 {
-    FABRIC.with(|fab| fab.try_borrow().map(|f| f.current).unwrap_or(u64::MAX))
+    FABRIC
+        .try_with(|fab| fab.try_borrow().map(|f| f.current).unwrap_or(u64::MAX))
+        .unwrap_or(u64::MAX)
 }
 
 /// Forget a namespace (listeners, pending endpoints, board).
 pub fn remove(ns: u64) {
-    FABRIC.with(|fab| {
-        fab.borrow_mut().spaces.remove(&ns);
-    });
+    let _ = FABRIC.try_with(|fab| fab.borrow_mut().spaces.remove(&ns));
 }
 
 fn pair(addr: SocketAddr, outbound: bool, next: &mut u64) -> (TcpStream, Endpoint) {
